@@ -762,3 +762,41 @@ def kernel_value_table(ctx, clause: str, what: str):
             f"{bad[8][1] if bad[8] else ''}; a plain dynamic programme over the same pair gives {_s(bad[7])}"
             + (" (the fewest .. most edits among its minimum-cost alignments)" if what == "count" else "")) if bad else "", rel, f.line, sample=dict(rows=n_rows))
     return True
+
+
+def lens_helper_table(ctx, clause: str):
+    """`_lens_from_eos` by value: interpreted (sa/interp.py + sa/teval.py; nothing is run) for token matrices laid out (steps, batch)
+    with dim=0 and (batch, steps) with dim=1 and dim=-1 - more steps than batch entries and the other way round - with the eos in the
+    middle, first, last, twice, and absent: the result is the index of the FIRST eos along `dim`, and the extent of `dim` where there
+    is none. (The other tables use the helper by this meaning.)"""
+    import numpy as np
+    from sa.interp import Interp
+    from sa.inteval import NotEvaluable
+    from sa.teval import frac_array
+    col, pkg = ctx.col, ctx.pkg
+    rel = pkg.module(MOD).relname
+    f = pkg.func(f"{MOD}::_lens_from_eos")
+    where = f"{rel}::_lens_from_eos"
+    names = [a.arg for a in f.node.args.args]
+    EOS = 9
+    batches = ([[1, 9, 2, 9, 3, 4], [9, 1, 1, 1, 1, 1], [1, 2, 3, 4, 5, 6]],                      # 3 sequences of 6 steps
+               [[1, 2], [9, 9], [2, 9], [3, 1], [4, 4], [9, 5], [6, 6]])                            # 7 sequences of 2 steps
+    bad, n_rows = None, 0
+    try:
+        for seqs in batches:
+            want = [s_.index(EOS) if EOS in s_ else len(s_) for s_ in seqs]
+            for layout, dim in (("NT", 1), ("NT", -1), ("TN", 0), ("TN", -2)):
+                arr = frac_array(seqs) if layout == "NT" else frac_array(seqs).T
+                kind, got = Interp(tensors=True).run(f.node, dict(zip(names, (arr, EOS, dim))))
+                n_rows += 1
+                ok = kind == "return" and hasattr(got, "shape") and [int(x) for x in np.asarray(got).tolist()] == want
+                if not ok and bad is None:
+                    bad = (seqs, layout, dim, got if kind == "return" else f"raise {got}", want)
+    except NotEvaluable as e:
+        return False
+    col.floor("lens_helper_table_rows", n_rows, 8)
+    col.ob("G12", clause, f"{where}::first-eos-table", bad is None,
+           (f"for the sequences {bad[0]} laid out {'(batch, steps)' if bad[1] == 'NT' else '(steps, batch)'} with dim={bad[2]} the helper returns "
+            f"{str(bad[3].tolist() if hasattr(bad[3], 'tolist') else bad[3])[:80]}; the index of the first eos (the extent of `dim` where there is none) is "
+            f"{bad[4]}") if bad else "", rel, f.line, sample=dict(rows=n_rows))
+    return True
